@@ -67,4 +67,6 @@ meta["checks"] = checks
 json.dump(meta, open(os.path.join(dst, "meta.json"), "w"), indent=1)
 if "--keep" not in sys.argv:
     shutil.rmtree(scratch, ignore_errors=True)
+    import hashlib
+    shutil.rmtree("/tmp/verif-work-" + hashlib.sha256(os.path.realpath(scratch).encode()).hexdigest()[:12], ignore_errors=True)
 # the check ran against the patched copy: regenerate Generated files / evidence from the real tree afterwards
